@@ -29,6 +29,7 @@ RULE = ('streams of 1-3 definition messages (1-6 new elements each: numeric with
         'replication-only sequences) each followed by 1-3 data messages (1-3 subsets, compressed or not) over defined and '
         'standard descriptors; later definitions may redefine earlier entries; non-trivial = the data message uses >= 1 '
         'defined descriptor; distinct by SHA-1 of the stream; scan variants (all-accepting filter, continue_on_error, wire_template_data=False)')
+RULE += '; added with rounds 10-12: scan variants lookahead (another decoder decodes the following message from the loop body) and compiling (decoder with template compilation on); the same descriptor list under the other table version'
 ASSUMPTIONS = ['NCEP layout as read from the library\'s processor and the sample file: template 1-03-000 031001 000001..3 / 1-01-000 031001 3-00-004 / '
                '1-05-000 031001 3-00-003 2-05-064 1-01-000 031001 000030',
                'a defined sequence consisting only of a replication descriptor (and its factor) replicates the descriptor that follows it in the '
